@@ -16,6 +16,8 @@ CONSTANTS
   MaxCrash = 0
   EmitOn = FALSE
   EmitMod = 1
+  Script <- ScriptNone
+  ScriptRows <- RowsNone
 INIT MCInit
 NEXT MCNext
 VIEW View
